@@ -8,10 +8,17 @@
   (2) Connections working on disjoint keys cannot influence each other through the backends:
   a backend request reads and writes the one entry it addresses, so requests on different keys
   commute — every interleaving of such connections' requests yields the replies and the final
-  content of any sequential order.
+  content of any sequential order.  (3) THE COMPOSITION over a scheduler semantics: any number of
+  connections, each running any program whose backend requests address only that connection's
+  own keys (a sequence of orchestrator calls on private keys is one: `runCmds_private`), no locks
+  at all, scheduled in ANY way at the granularity of single backend requests — every connection
+  returns and emits exactly what it does when it runs ALONE from the initial state, its keys hold
+  what it leaves when alone, nobody else's keys are touched (`C14_no_interference`).
 -/
 import Rend.Spec
 import Rend.Gen.Facts
+import Rend.Proofs.SerialFoot
+import Rend.Proofs.KeyLocal
 
 namespace Rend.Props.C14
 open Rend
@@ -101,5 +108,66 @@ theorem C14_other_keys_invisible (now : Nat) (s s' : Store) (r : Req) (h : s r.k
   refine ⟨by rw [a.1, b.1, h], by rw [a.2, b.2, h], ?_⟩
   intro k hk
   rw [a.2]; simp [hk]
+
+
+/-! ### the composition: connections on private keys do not interfere -/
+
+/-- A connection's program: its commands, one orchestrator call after the other. -/
+def runCmds (p : Port) : List Cmd → OProg (List (HRes Unit))
+  | [] => pure []
+  | c :: cs => do
+    let r ← portStep p c
+    let rs ← runCmds p cs
+    pure (r :: rs)
+
+/-- Every backend request of a connection whose commands are single-key commands on keys of the
+    set `K` addresses a key of `K`. -/
+theorem runCmds_private (p : Port) (K : Bytes → Prop) : ∀ (cmds : List Cmd),
+    (∀ c ∈ cmds, ∃ k, cmdKey c = some k ∧ K k) → AllReqs (Conc.FootLocal K) (runCmds p cmds)
+  | [], _ => AllReqs.pure _
+  | c :: cs, h => by
+    obtain ⟨k, hk, hK⟩ := h c (List.mem_cons_self ..)
+    unfold runCmds
+    apply AllReqs.bind
+    · exact (portStep_keyLocal p c k hk).mono (fun t r hr => by
+        rcases hr with hr | hr
+        · exact Or.inl (by rw [hr]; exact hK)
+        · exact Or.inr hr)
+    · intro r
+      apply AllReqs.bind (runCmds_private p K cs (fun c' hc' => h c' (List.mem_cons_of_mem _ hc')))
+      intro rs
+      exact AllReqs.pure _
+
+/-- **No interference.**  Connections `i` with programs `progs i` whose requests stay within the
+    pairwise disjoint key sets `K i`; every schedule (no locks: every connection may start at any
+    time, steps are single backend requests / responder calls) that ends with nobody running:
+    each finished connection returned and emitted what it does when it runs alone from the
+    initial state; its keys hold what it leaves when alone; keys of no connection are untouched. -/
+theorem C14_no_interference {α : Type} (now : Nat) (progs : Nat → Prog OEv α) (K : Nat → Bytes → Prop)
+    (hloc : ∀ i, AllReqs (Conc.FootLocal (K i)) (progs i)) (hdisj : ∀ i j k, K i k → K j k → i = j)
+    (w : World) (sched : List Conc.Step) (c' : Conc.Conf α)
+    (hex : Conc.ExecF now (fun i => { foot := K i, stripe := i, body := progs i }) (Conc.Conf.init w) sched c')
+    (hquiet : ∀ i p evs, c'.ts i ≠ .running p evs) :
+    (∀ i a evs, c'.ts i = .done a evs →
+      a = ((progs i).eval now w []).1 ∧ evs = ((progs i).eval now w []).2.1 ∧
+      ∀ k, K i k → Conc.at' c'.w k = Conc.at' ((progs i).eval now w []).2.2.1 k) ∧
+    (∀ k, (∀ i, ¬ K i k) → Conc.at' c'.w k = Conc.at' w k) :=
+  Conc.alone now _ hloc hdisj w sched c' hex hquiet
+
+/-- Non-vacuity: without locks two connections may both be running (the second start is admitted
+    while the first is inside its program). -/
+def exThreads : Nat → Conc.ThreadF (List (HRes Unit)) :=
+  fun i => { foot := fun k => k = [i.toUInt8], stripe := i, body := runCmds .main [.delete { key := [i.toUInt8] }] }
+
+example : ∀ c1, Conc.Step1F 7 exThreads (Conc.Conf.init {}) (.acq 0) c1 → ∃ c2, Conc.Step1F 7 exThreads c1 (.acq 1) c2 := by
+  intro c1 h1
+  cases h1 with
+  | acq _ _ _ =>
+    refine ⟨_, Conc.Step1F.acq _ 1 ?_ ?_⟩
+    · rw [Conc.set_other _ _ _ _ (by decide)]; rfl
+    · intro j p evs hj
+      by_cases hj0 : j = 0
+      · subst hj0; decide
+      · rw [Conc.set_other _ _ _ _ hj0] at hj; cases hj
 
 end Rend.Props.C14
